@@ -375,9 +375,37 @@ impl RefSentence {
         out
     }
 
-    /// Builds the real sentence through the public API.
+    /// Builds the real sentence through the public API. The same state is reached by one of
+    /// four routes, chosen by the content (not by a random draw): the text comes in through
+    /// from_raw, through from_tokenized / from_partial_annotation of an untagged rendering of the
+    /// same text, or through update_raw on a used sentence; boundaries and tags are then set
+    /// through boundaries_mut / reset_tags / tags_mut. Whatever a parser remembers about the
+    /// string it parsed must not matter once the caller has replaced the annotations.
     pub fn to_sentence(&self) -> Result<Sentence<'static, 'static>, String> {
-        let mut s = Sentence::from_raw(self.text()).map_err(|e| format!("from_raw: {e}"))?;
+        let route = (self.chars.len() + self.n_tags + self.labels.iter().map(|&l| l as usize).sum::<usize>()) % 4;
+        self.to_sentence_via(route as u8)
+    }
+
+    pub fn to_sentence_via(&self, route: u8) -> Result<Sentence<'static, 'static>, String> {
+        let bare = || RefSentence {
+            chars: self.chars.clone(),
+            labels: self.labels.iter().map(|&l| if l == UNK { NB } else { l }).collect(),
+            tags: vec![vec![]; self.chars.len()],
+            n_tags: 0,
+        };
+        let mut s = match route {
+            1 => Sentence::from_tokenized(&ref_write_tokenized(&bare())).map_err(|e| format!("from_tokenized (untagged rendering): {e}"))?,
+            2 => Sentence::from_partial_annotation(&ref_write_partial(&bare())).map_err(|e| format!("from_partial_annotation (untagged rendering): {e}"))?,
+            3 => {
+                let mut s = Sentence::from_tokenized("zz/Q1/Q2 y/R1 x\\/x/S").map_err(|e| e.to_string())?;
+                s.update_raw(self.text()).map_err(|e| format!("update_raw: {e}"))?;
+                s
+            }
+            _ => Sentence::from_raw(self.text()).map_err(|e| format!("from_raw: {e}"))?,
+        };
+        if s.as_raw_text() != self.text() {
+            return Err(format!("route {route}: the sentence holds {:?} instead of {:?}", s.as_raw_text(), self.text()));
+        }
         for (b, &l) in s.boundaries_mut().iter_mut().zip(&self.labels) {
             *b = boundary_of(l);
         }
